@@ -15,7 +15,7 @@ LEVEL = {
             "trace validation against the spec; the generated source itself is not (yet) translated into the Plan model."),
     "C04": ("CLayout (Layout.tla) is the declarative C rule; TLC compares projected size/alignment/offsets of real classes, sizeof() evaluated by a real Expression, consumed and dumped byte counts with it; MC_Codec proves SizeAgree on the spec; MC_Layout proves the step machine mirroring the code's loop equal to CLayout and validates CLayout against ctypes (native C ABI) offsets.",
             "int24/48/128 have no C counterpart: their alignments are design constants. Bit-field placement is C06's."),
-    "C09": ("Decode takes (bytes, start) and returns (value, end): position independence is a theorem of the spec (WindowOnly, InBounds in MC_Codec); recorded executions use random start offsets, prefixes and suffixes, every call form x input kind, and histories of consecutive parses on one stream; TLC checks value, position, recorded sizes and that all forms agree.",
+    "C09": ("Decode takes (bytes, start) and returns (value, end): position independence is a theorem of the spec (WindowOnly, InBounds in MC_Codec); MC_Reader is the interpreted reader's loop as a state machine (seek / align relative to the structure's start / bit-buffer fetch / member read per field) started at stream position 3 and proved equal to Decode on every truncation of the input patterns, with the absolute-alignment reader of finding F35 as negative control; recorded executions use random start offsets, prefixes and suffixes, every call form x input kind, and histories of consecutive parses on one stream; TLC checks value, position, recorded sizes and that all forms agree.",
             "aligned structures are started at arbitrary offsets too (alignment is relative to the structure's first byte; finding F35 repaired)."),
     "C05": ("Builtins.tla states what every built-in name denotes (from C / stdint / Windows SDK meaning), Codec.tla the encodings (two's complement on limbs, UTF-16 with surrogates, LEB128 with canonical form); MC_Scalar proves decode/encode inverse, the two's-complement value, and the per-byte LEB machine equal to the closed form exhaustively over boundary alphabets with an endianness switch between read and write; Trace_Scalar is a state machine whose only state is the byte order in force and judges recorded histories New/SetEndian/Read/Write on real cstruct objects, over every name in cs.typedefs and a structure compiled before the switches.",
             "IEEE-754 numeric interpretation is done by the projection (struct); @ and = are outside the domain."),
